@@ -21,3 +21,7 @@ def run(prog: Program, res: Result, tier: str) -> None:
     hashrules.check_parity_norm(prog, res)
     hashrules.check_stereo_latency(prog, res)
     hashrules.check_hash_pure(prog, res)
+    hashrules.check_refine_progress(prog, res)
+    # the reaction hash is built from reactant() / product() / _ts()
+    from . import C08
+    C08.check_bonds(prog, res)
